@@ -67,21 +67,25 @@ Section Prim.
     intros Hg Hlen Hres Hnd. cbn [P mem_prims p_read_dir]. unfold mem_read_dir, vfs_read_dir, mem_file_read_dir, read_dir.
     rewrite (mem_open_dir_resolved Hg Hlen Hres Hnd). fold u.
     destruct (check_permission m OpenRead u); [|reflexivity].
-    unfold f_read_dir. cbn [new_handle hd_name hd_node]. cbn [abs_path]. fold h. rewrite Hnd.
-    change ((-1 <=? 0)%Z) with true. cbn [orb andb snd]. cbv iota beta.
+    unfold f_read_dir, dir_read. cbn [new_handle hd_name hd_node]. cbn [abs_path]. fold h. rewrite Hnd.
+    cbn [new_handle hd_dir_infos]. rewrite dir_batch_all by reflexivity. cbn [new_handle hd_dir_infos snd]. cbv iota beta.
     (* the sort of vfs.ReadDir after MemFile.ReadDir(-1), which is sorted already *)
     rewrite sort_by_map. rewrite (@sort_by_ext _ (fun a => de_name (dent_of a)) (@fi_name)) by reflexivity.
     rewrite dir_infos_resort. reflexivity.
   Qed.
 
+  (* Readdirnames reads the names off the listing of infos ReadDir and Readdirnames share: every entry of the
+     directory must point to a node (an invariant of the heap, C05) *)
   Lemma mem_dir_names_resolved (cs : list str) (c : nat) (ch : list (str * nat)) (m : meta) :
     Forall good_comp cs -> length cs < SEARCH_FUEL -> resolves s v cs c -> get h c = Some (NDir ch m) ->
+    (forall name c', In (name, c') ch -> get h c' <> None) ->
     p_dir_names P (abs_path cs) = if check_permission m OpenRead u then Some (dir_names ch) else None.
   Proof.
-    intros Hg Hlen Hres Hnd. cbn [P mem_prims p_dir_names]. unfold mem_dir_names.
+    intros Hg Hlen Hres Hnd Hall. cbn [P mem_prims p_dir_names]. unfold mem_dir_names.
     rewrite (mem_open_dir_resolved Hg Hlen Hres Hnd). fold u.
     destruct (check_permission m OpenRead u); [|reflexivity].
-    unfold f_readdirnames. cbn [new_handle hd_name hd_node]. cbn [abs_path]. fold h. rewrite Hnd. reflexivity.
+    unfold f_readdirnames, dir_read. cbn [new_handle hd_name hd_node hd_dir_infos]. cbn [abs_path]. fold h. rewrite Hnd.
+    rewrite dir_batch_all by reflexivity. rewrite (dir_infos_names h ch Hall). reflexivity.
   Qed.
 
   Lemma mem_read_dir_blocked (cs : list str) :
